@@ -1,7 +1,7 @@
 (** * Pipe/ProofsConverse3.v — converse source tie, part 3: the steps the Snapper takes on its own. *)
 From Coq Require Import ZArith List String Bool Lia Permutation.
 From Texel Require Import Pipe.Model Pipe.ProofsBase Pipe.ProofsInv Pipe.ProofsLive Pipe.Skeleton Pipe.SkeletonSem Pipe.SkeletonSim
-  Pipe.ProofsSkeleton Pipe.ConversePc Pipe.ConversePcSn Pipe.ProofsConversePc Pipe.ProofsConversePcSn Pipe.Converse
+  Pipe.ProofsSkeleton Pipe.ConversePc Pipe.ConversePcSn Pipe.ProofsConversePc Pipe.ProofsConversePcSn Pipe.Converse Pipe.ConverseRank
   Pipe.ProofsConverse1 Pipe.ProofsConverse2.
 Import ListNotations.
 Open Scope string_scope.
@@ -31,7 +31,7 @@ Lemma step_snap : forall cfg roles chans wgs s t p c g' ev,
   coh cfg roles chans wgs s -> s_panic s = None -> nth_error roles t = Some (RoSnap p) ->
   gstep P (MkG (map (th_of (c_targets cfg)) roles) chans wgs None) (ALocal t c) = Some (g', ev) ->
   choice_ok s (th_sn p) c ->
-  exists s', mstep cfg s s' /\ skel_rel cfg g' s'.
+  exists s', rstep cfg roles s g' s'.
 Proof.
   intros cfg roles chans wgs s t p c g' ev Hcoh Hpan Hn Hg Hch.
   destruct (coh_inv_late _ _ _ _ _ _ _ Hcoh Hn) as (pm & Hm & Hnd & He & Hmain & Hlate); [discriminate|].
@@ -50,27 +50,30 @@ Proof.
   (* a step that changes only the Snapper's component of the model state *)
   assert (Hupd : forall p' x chans', sn_ok p' -> sn_rel p' x ->
             chans' = hd false chans :: sn_is_closed x :: tl (tl chans) ->
-            skel_rel cfg (MkG (map (th_of (c_targets cfg)) (upd_nth t (RoSnap p') roles)) chans' wgs None) (set_sn s x)).
-  { intros p' x chans' Hp' Hx ->. apply skel_rel_intro; [exact Hpan|].
+            coh cfg (upd_nth t (RoSnap p') roles) chans' wgs (set_sn s x)).
+  { intros p' x chans' Hp' Hx ->.
     eapply coh_upd; eauto; [discriminate|].
     eapply late_sn_upd; eauto. }
-  assert (Htau : forall p', sn_ok p' -> sn_rel p' (s_sn s) ->
-            exists s', mstep cfg s s' /\
-              skel_rel cfg (MkG (map (th_of (c_targets cfg)) (upd_nth t (RoSnap p') roles)) chans wgs None) s').
-  { intros p' Hp' Hx. exists s. split; [now left|].
+  assert (Htau : forall p',
+            ((rank_sn p' < rank_sn p)%nat \/ exists fs fs' b, p = SPure fs b /\ p' = SPure fs' b) ->
+            sn_ok p' -> sn_rel p' (s_sn s) ->
+            exists s', rstep cfg roles s (MkG (map (th_of (c_targets cfg)) (upd_nth t (RoSnap p') roles)) chans wgs None) s').
+  { intros p' Hrk Hp' Hx. exists s.
     assert (Es : set_sn s (s_sn s) = s) by (destruct s; reflexivity).
     assert (Ec : chans = hd false chans :: sn_is_closed (s_sn s) :: tl (tl chans)) by (rewrite Hchans; reflexivity).
-    pose proof (Hupd p' (s_sn s) chans Hp' Hx Ec) as H. rewrite Es in H. exact H. }
+    pose proof (Hupd p' (s_sn s) chans Hp' Hx Ec) as H. rewrite Es in H.
+    apply rstep_silent; [exact H|]. destruct Hrk as [Hrk|(fs0 & fs1 & b0 & -> & ->)].
+    - left. eapply rank_sum_upd; [exact Hn | exact Hrk].
+    - right. exists t, fs0, fs1, b0. auto. }
   assert (Hlab : forall p' x l, sn_ok p' -> sn_rel p' x -> step_started cfg s l = Some (set_sn s x) ->
             sn_is_closed x = sn_is_closed (s_sn s) ->
-            exists s', mstep cfg s s' /\
-              skel_rel cfg (MkG (map (th_of (c_targets cfg)) (upd_nth t (RoSnap p') roles)) chans wgs None) s').
-  { intros p' x l Hp' Hx Hl Hcl. exists (set_sn s x). split.
-    - right. exists l. now rewrite (step_late _ _ _ pm Hpan Hmain).
-    - apply Hupd; auto. rewrite Hcl. rewrite Hchans; reflexivity. }
+            exists s', rstep cfg roles s (MkG (map (th_of (c_targets cfg)) (upd_nth t (RoSnap p') roles)) chans wgs None) s').
+  { intros p' x l Hp' Hx Hl Hcl. exists (set_sn s x). apply (rstep_label _ _ _ _ _ l).
+    - now rewrite (step_late _ _ _ pm Hpan Hmain).
+    - apply skel_rel_intro; [exact Hpan|]. apply Hupd; auto. rewrite Hcl. rewrite Hchans; reflexivity. }
   destruct p; cbn [next_sn] in En;
     try (invo En q k; specialize (Heff I Hg); cbn [shared_effect K] in Heff; subst g';
-         apply Htau; [exact (Hok' true) | cbn in Hrel |- *; solve [exact Hrel | eauto]]; fail).
+         (apply Htau; [left; cbn; lia | |]); [exact (Hok' true) | cbn in Hrel |- *; solve [exact Hrel | eauto]]; fail).
   - (* SRv: receive on the closed featuresBefore *)
     invo En q k. specialize (Heff I Hg). cbn [shared_effect] in Heff. destruct Heff as [Hc ->].
     cbn in Hrel. rewrite Hchans in Hc. cbn in Hc. inversion Hc as [Hc0].
@@ -78,16 +81,16 @@ Proof.
     cbn. rewrite Hrel. destruct (s_rd s); [discriminate | reflexivity | reflexivity].
   - (* SG *)
     destruct b; invo En q k; specialize (Heff I Hg); cbn [shared_effect K] in Heff; subst g';
-      apply Htau; [exact I | exact Hrel | exact I | exact Hrel].
+      (apply Htau; [left; cbn; lia | |]); [exact I | exact Hrel | exact I | exact Hrel].
   - (* SC0: close(featuresOut) *)
     invo En q k. specialize (Heff I Hg). cbn [shared_effect K] in Heff. cbn in Hrel.
     destruct Heff as [[Hc ->]|[Hc _]]; [|rewrite Hchans, Hrel in Hc; discriminate].
-    exists (set_sn s SLog). split.
-    + right. exists LSnapClose. rewrite (step_late _ _ _ pm Hpan Hmain). cbn. now rewrite Hrel.
-    + apply Hupd; [exact I | reflexivity|]. rewrite Hchans; reflexivity.
+    exists (set_sn s SLog). right. split.
+    + exists LSnapClose. rewrite (step_late _ _ _ pm Hpan Hmain). cbn. now rewrite Hrel.
+    + apply skel_rel_intro; [exact Hpan|]. apply Hupd; [exact I | reflexivity|]. rewrite Hchans; reflexivity.
   - (* SLg2 *)
     destruct c as [|[|]| | |]; try discriminate; invo En q k; specialize (Heff I Hg);
-      cbn [shared_effect K] in Heff; subst g'; apply Htau; [exact I | exact Hrel | exact I | exact Hrel].
+      cbn [shared_effect K] in Heff; subst g'; (apply Htau; [left; cbn; lia | |]); [exact I | exact Hrel | exact I | exact Hrel].
   - (* SLg6: return *)
     invo En q k. specialize (Heff I Hg). cbn [shared_effect K] in Heff. subst g'. cbn in Hrel.
     apply (Hlab SX SExit LSnapExit); [exact I | reflexivity | | now rewrite Hrel].
@@ -96,10 +99,10 @@ Proof.
   - (* SP2: the type switch *)
     unfold choice_ok in Hch. cbn in Hch. cbn in Hrel. destruct Hrel as [f Hf]. rewrite Hf in Hch. subst c.
     destruct (kind_case (f_kind f)) as [|[|[|i]]] eqn:Ek; try discriminate; invo En q k;
-      specialize (Heff I Hg); cbn [shared_effect K] in Heff; subst g'; apply Htau; try exact I; exists f; auto.
+      specialize (Heff I Hg); cbn [shared_effect K] in Heff; subst g'; (apply Htau; [left; cbn; lia | |]); try exact I; exists f; auto.
   - (* C0c *)
     destruct c as [|[|]| | |]; try discriminate; invo En q k; specialize (Heff I Hg);
-      cbn [shared_effect K] in Heff; subst g'; apply Htau; [exact I | exact Hrel | exact I | exact Hrel].
+      cbn [shared_effect K] in Heff; subst g'; (apply Htau; [left; cbn; lia | |]); [exact I | exact Hrel | exact I | exact Hrel].
   - (* C0f: the head statement of the send loop = LSnapCompute *)
     invo En q k. specialize (Heff I Hg). cbn [shared_effect K] in Heff. subst g'. cbn in Hrel.
     destruct Hrel as (f & Hf & Ek).
@@ -110,7 +113,7 @@ Proof.
     + now rewrite Hf.
   - (* C1c *)
     destruct c as [|[|]| | |]; try discriminate; invo En q k; specialize (Heff I Hg);
-      cbn [shared_effect K] in Heff; subst g'; apply Htau; [exact I | exact Hrel | exact I | exact Hrel].
+      cbn [shared_effect K] in Heff; subst g'; (apply Htau; [left; cbn; lia | |]); [exact I | exact Hrel | exact I | exact Hrel].
   - (* C1f *)
     invo En q k. specialize (Heff I Hg). cbn [shared_effect K] in Heff. subst g'. cbn in Hrel.
     destruct Hrel as (f & Hf & Ek).
@@ -135,7 +138,7 @@ Proof.
     + (* next key *)
       destruct (take_pend ord z pending) as [[og r]|] eqn:Etp; [|congruence].
       destruct j as [|[|[|j]]]; [| | |lia]; invo En q k; specialize (Heff I Hg);
-        cbn [shared_effect K] in Heff; subst g'; apply Htau; try exact I; try (cbn; lia).
+        cbn [shared_effect K] in Heff; subst g'; (apply Htau; [left; cbn; lia | |]); try exact I; try (cbn; lia).
       * destruct Hcls as [Hord _]. cbn in Hord. subst ord. cbn. exists id, pending, og, r. auto.
       * destruct Hcls as [Hord HF]. destruct (take_pend_some _ _ _ _ _ (HF ltac:(discriminate)) Etp) as [g0 ->].
         cbn. exists id, ord, pending, g0, r. repeat split; auto.
@@ -152,19 +155,19 @@ Proof.
     cbn in Hrel. destruct Hrel as (id & pending & og & r & Hx & Etp & _).
     rewrite Hx, Etp in Hch. subst c.
     destruct og as [g0|]; cbn [is_none] in En; invo En q k; specialize (Heff I Hg);
-      cbn [shared_effect K] in Heff; subst g'; apply Htau; try exact I; cbn; exists id, pending; eauto 8.
+      cbn [shared_effect K] in Heff; subst g'; (apply Htau; [left; cbn; lia | |]); try exact I; cbn; exists id, pending; eauto 8.
   - (* I0p: panic("no new polygon for level") = LSnapSend on an entry without polygons *)
     invo En q k. specialize (Heff I Hg). cbn [shared_effect] in Heff. cbn in Hrel.
     destruct Hrel as (id & pending & og & r & Hx & Etp & Hog). inversion Hog; subst og.
-    exists (set_panic s (PanicNoPolygon z)). split.
-    + right. exists (LSnapSend z). rewrite (step_late _ _ _ pm Hpan Hmain). cbn. rewrite Hx. now rewrite Etp.
+    exists (set_panic s (PanicNoPolygon z)). right. split.
+    + exists (LSnapSend z). rewrite (step_late _ _ _ pm Hpan Hmain). cbn. rewrite Hx. now rewrite Etp.
     + apply skel_rel_panic; [exact Heff | discriminate].
   - (* I0d *)
     destruct c as [|[|]| | |]; try discriminate; invo En q k; specialize (Heff I Hg);
-      cbn [shared_effect K] in Heff; subst g'; apply Htau; [exact I | exact Hrel | exact I | exact Hrel].
+      cbn [shared_effect K] in Heff; subst g'; (apply Htau; [left; cbn; lia | |]); [exact I | exact Hrel | exact I | exact Hrel].
   - (* I0f *)
     invo En q k. specialize (Heff I Hg). cbn [shared_effect K] in Heff. subst g'.
-    apply Htau; [cbn; lia|]. cbn in Hrel |- *. destruct Hrel as (id & pending & og & r & Hx & Etp & [g0 Hog]).
+    (apply Htau; [left; cbn; lia | |]); [cbn; lia|]. cbn in Hrel |- *. destruct Hrel as (id & pending & og & r & Hx & Etp & [g0 Hog]).
     inversion Hog; subst og. exists id, false, pending, g0, r. repeat split; auto. intros H; congruence.
   - (* IS: a send on the closed featuresAfter cannot happen *)
     cbn in Hok. destruct j as [|[|[|j]]]; [| | |lia]; invo En q k; specialize (Heff I Hg);
@@ -172,9 +175,9 @@ Proof.
       destruct Hrel as (id & ord & pending & g0 & r & Hx & _); rewrite Hchans, Hx in Hc; discriminate.
   - (* IX *)
     cbn in Hok. destruct j as [|[|[|j]]]; [| | |lia]; invo En q k; specialize (Heff I Hg);
-      cbn [shared_effect K] in Heff; subst g'; apply Htau; try (cbn; lia); exact Hrel.
+      cbn [shared_effect K] in Heff; subst g'; (apply Htau; [left; cbn; lia | |]); try (cbn; lia); exact Hrel.
   - (* SPure *)
     destruct fs as [|fr fs']; [discriminate|]. destruct (tstep P c [fr]) as [[q1 new]|]; [|discriminate].
     invo En q k. specialize (Heff I Hg). cbn [shared_effect K] in Heff. subst g'.
-    apply Htau; [exact (Hok' true) | eapply sn_rel_mkpure; eauto].
+    apply Htau; [unfold K, mkpure; destruct (new ++ fs'); [left; destruct b; cbn; lia | right; eauto] | exact (Hok' true) | eapply sn_rel_mkpure; eauto].
 Qed.
